@@ -11,7 +11,7 @@
 (* LegacyPrealloc = TRUE models the unrepaired readNonStrictEnvelope (name   *)
 (* buffer allocated from the declared length) and is the negative control.  *)
 (***************************************************************************)
-EXTENDS WireUniverse, Envelope, Frame
+EXTENDS WireUniverse, Envelope, Frame, Json
 
 CONSTANTS LegacyPrealloc, CostC, CostK
 
@@ -39,11 +39,24 @@ Shaped == { F1(1, L(TI32, << Num(TI32, 1) >>)),                       \* Generat
             F1(4, M(TI64, TI64, <<>>)), F1(4, M(TI32, TI32, << [k |-> Num(TI32, 1), v |-> Num(TI32, 2)] >>)),
             F1(4, M(TI64, TI32, <<>>)), F1(4, L(TI64, <<>>)), F1(4, [t |-> TSet, et |-> TI32, e |-> <<>>]) }
 
-Kinds == {"bare", "strict", "legacy", "frame", "shaped"}
+\* freshly generated code: one struct ("Cost") with a list, a set, a slice-backed set and a map field for every kind of item
+\* (field id = 20 * container + item index); the check renders this table to IDL and runs the generator under test on it
+LabElems == << [t |-> TBool, idl |-> "bool"], [t |-> TI8, idl |-> "i8"], [t |-> TI16, idl |-> "i16"], [t |-> TI32, idl |-> "i32"],
+               [t |-> TI64, idl |-> "i64"], [t |-> TDouble, idl |-> "double"], [t |-> TBinary, idl |-> "string"],
+               [t |-> TBinary, idl |-> "binary"], [t |-> TI32, idl |-> "E"], [t |-> TStruct, idl |-> "Empty"] >>
+LabContainers == << "list", "set", "sliceset", "map" >>
+LabFields == { [id |-> 20 * c + i, c |-> LabContainers[c], idl |-> LabElems[i].idl, t |-> LabElems[i].t] : c \in 1..4, i \in 1..Len(LabElems) }
+LabBody(f) == F1(f.id, CASE f.c = "list" -> L(f.t, <<>>)
+                         [] f.c \in {"set", "sliceset"} -> [t |-> TSet, et |-> f.t, e |-> <<>>]
+                         [] OTHER -> M(f.t, f.t, <<>>))
+LabBodies == { LabBody(f) : f \in LabFields }
+ASSUME PrintT(<<"LABFIELDS", ToJson(LabFields)>>)
+
+Kinds == {"bare", "strict", "legacy", "frame", "shaped", "lab"}
 Name3 == <<102, 111, 111>>
 
 Msg(kind, body) ==
-  CASE kind \in {"bare", "shaped"} -> Enc(body)
+  CASE kind \in {"bare", "shaped", "lab"} -> Enc(body)
     [] kind = "strict" -> EncEnv([fr |-> "strict", name |-> Name3, ty |-> 1, seq |-> 7, body |-> body])
     [] kind = "legacy" -> EncEnv([fr |-> "legacy", name |-> Name3, ty |-> 1, seq |-> 7, body |-> body])
     [] kind = "frame"  -> FrameBytes(Enc(body))
@@ -56,10 +69,10 @@ VARIABLES kind, msg, inflated
 vars == <<kind, msg, inflated>>
 
 Init == /\ kind \in Kinds
-        /\ \E b \in (IF kind = "shaped" THEN Shaped ELSE BodiesC) : msg = Msg(kind, b)
+        /\ \E b \in (IF kind = "shaped" THEN Shaped ELSE IF kind = "lab" THEN LabBodies ELSE BodiesC) : msg = Msg(kind, b)
         /\ inflated = 0
 Inflate == /\ inflated < 1
-           /\ \E i \in 1..(Len(msg) - 3), big \in (IF kind = "shaped" THEN BigLens \cup WrapLens ELSE BigLens) :
+           /\ \E i \in 1..(Len(msg) - 3), big \in (IF kind \in {"shaped", "lab"} THEN BigLens \cup WrapLens ELSE BigLens) :
                  msg' = SubSeq(msg, 1, i - 1) \o big \o SubSeq(msg, i + 4, Len(msg))
            /\ inflated' = inflated + 1
            /\ UNCHANGED kind
